@@ -5,3 +5,8 @@ PROPS = {}
 def prop(pid, explanation, decides, not_decided, assumptions=()):
     PROPS[pid] = dict(explanation=explanation, decides=decides, not_decided=not_decided,
                       assumptions=list(assumptions))
+
+
+def also(pid, text):
+    """Clauses added by later rounds (DESIGN.md Parts V and VI)."""
+    PROPS[pid]['decides'] += '; ' + text
